@@ -5,6 +5,7 @@ import (
 	"go/token"
 	"go/types"
 	"sort"
+	"strings"
 
 	"golang.org/x/tools/go/ssa"
 )
@@ -91,7 +92,7 @@ func checkC12(c *Ctx) {
 		"(C12.sync) in the owners a key that is new is inserted together with exactly one append to keyOrder, an existing key is overwritten without touching keyOrder, and 移除 deletes from the map and splices the key out of keyOrder preserving the order of the others; " +
 		"(C12.index) indexed access translates position−1 and both bounds tests (0 <= i < length) dominate the element access, out-of-range returns IndexOutOfRange with no store, a missing key on read returns IndexKeyNotFound, a keyed write goes through AppendKVPair; " +
 		"(C12.empty) the 'empty list' exits of 首项/末项/左移/右移 are taken exactly when the length is 0; (C12.len) 长度/数目 are len() of the backing store; (C12.order) every producer of a visible ordering of a dictionary derives it from keyOrder, including JSON generation (rule: a dictionary is never routed through a Go map); " +
-		"(C12.copy) DuplicateValue deep-copy rules (shared with C07). NOT decided: the sequence laws of 前增 后增 交换 逆序 合并 包含 寻找 (value-level), the bijection keyOrder<->value after arbitrary histories beyond the per-operation sync rule."
+		"(C12.copy) DuplicateValue deep-copy rules (shared with C07). (C12.getter) a property getter of a list / dictionary never returns its receiver; NewHashMap writes the value on every iteration (a repeated key takes the last value). NOT decided: the sequence laws of 前增 后增 交换 逆序 合并 包含 寻找 (value-level), the bijection keyOrder<->value after arbitrary histories beyond the per-operation sync rule."
 	R.Assumptions = []string{"Go append/slicing semantics", "tables/owners.json lists the intended writers (reviewed)"}
 	u := c.Core()
 	u.buildSSA()
@@ -212,6 +213,34 @@ func checkC12(c *Ctx) {
 			R.check(okW, "C12.index", "pkg/value.IV.ReduceLHS:dictionary", pos, "keyed assignment goes through AppendKVPair (new key appended, existing key keeps its place)", "keyed assignment writes the map directly")
 		}
 	}
+
+	// ---- C12.getter: reading a property of a list / dictionary / text yields an element or a freshly built value,
+	// never the collection itself (a getter result that aliases its receiver lets `A之逆序` mutate A)
+	nG := 0
+	for _, g := range u.srcFuncs("pkg/value") {
+		sig := g.Signature
+		if sig.Recv() != nil || sig.Params().Len() != 1 || sig.Results().Len() != 2 || !isErrorType(sig.Results().At(1).Type()) || !isElementIface(sig.Results().At(0).Type()) {
+			continue
+		}
+		if !namedTypeIs(sig.Params().At(0).Type(), "pkg/value", "Array") && !namedTypeIs(sig.Params().At(0).Type(), "pkg/value", "HashMap") {
+			continue
+		}
+		nG++
+		alias := ""
+		for _, b := range g.Blocks {
+			ret, ok := b.Instrs[len(b.Instrs)-1].(*ssa.Return)
+			if !ok {
+				continue
+			}
+			for _, src := range allSources(retValue(ret, 0)) {
+				if src == ssa.Value(g.Params[0]) {
+					alias = u.pos(ret.Pos())
+				}
+			}
+		}
+		R.check(alias == "", "C12.getter", u.fname(g), u.pos(g.Pos()), "the getter never returns its receiver", "the property getter returns the collection itself at "+alias+": a method applied to the result (后增, 左移, …之末项 = x) changes the original collection although no operation was applied to it")
+	}
+	R.min("C12.getter", 6)
 
 	// ---- C12.empty
 	for _, name := range []string{"arrayGetFirstItem", "arrayGetLastItem", "shiftArrayValue"} {
@@ -370,6 +399,17 @@ func ruleKeyOrderSync(c *Ctx, u *Universe, rule string) {
 								}
 							}
 						}
+						// the value is written on every iteration: from the key-present edge the next iteration
+						// cannot start without passing the map write (a repeated key takes the LAST value written)
+						var mu ssa.Instruction
+						for _, in := range instrsOf(f) {
+							if m, isMU := in.(*ssa.MapUpdate); isMU && containerField(m.Map) == "HashMap.value" && loopBlock(in.Block()) {
+								mu = in
+							}
+						}
+						if mu == nil || reachableAvoiding(b.Succs[0], 0, func(x ssa.Instruction) bool { return x == ssa.Instruction(ifi) }, func(x ssa.Instruction) bool { return x == mu }) != nil {
+							ok = false
+						}
 					}
 				}
 			}
@@ -507,7 +547,7 @@ func checkC19(c *Ctx) {
 		"(C19.catch) every error exit of JSONStringToElement / HashMapToJSONString / ElementToJSONString returns an exception signal built by value.ThrowException (the kind a 拦截 can catch) and the encoding/json error is not dropped; " +
 		"(C19.whole) the parser consumes the whole text (json.Unmarshal / json.Valid, not a streaming Decoder that stops after the first value); (C19.kinds) buildPlainValueFromElement has a case for each JSON-representable value kind mapping to the matching Go kind " +
 		"(numbers stay float64: no integer conversion), and buildElementFromPlainValue has returning cases for exactly the six dynamic types encoding/json produces; (C19.params) the library functions validate their parameter before asserting it; " +
-		"(C19.maprange) the map ranges on this path (C11 classifier). NOT decided: RFC 8259 escaping and number formatting (encoding/json, trusted), inverse-ness for all values."
+		"(C19.maprange) the map ranges on this path (C11 classifier). (C19.verbatim) the generated text is exactly string(bytes of json.Marshal); (C19.fresh) no element of a parsed document comes from a package-level variable. NOT decided: RFC 8259 escaping and number formatting (encoding/json, trusted), inverse-ness for all values."
 	R.Assumptions = []string{"encoding/json implements RFC 8259 for Go maps, slices, strings, float64, bool, nil"}
 	u := c.Core()
 	u.buildSSA()
@@ -582,6 +622,55 @@ func checkC19(c *Ctx) {
 		}
 		R.check(ok, "C19.catch", "pkg/common."+name, pos, "an encoding/json failure becomes an exception signal (catchable by 拦截)", "an encoding/json failure is dropped or returned as a non-catchable error")
 	}
+	// ---- C19.verbatim: the generated text is exactly the bytes encoding/json produced (no textual post-processing:
+	// it cannot know the escaping context and turns valid JSON into invalid JSON)
+	for _, name := range []string{"HashMapToJSONString", "ElementToJSONString"} {
+		f := u.ssaFunc("pkg/common", name)
+		if f == nil {
+			continue
+		}
+		marshals := u.callsNamed(f, "encoding/json.Marshal")
+		if len(marshals) == 0 {
+			continue // a delegate (C19.catch)
+		}
+		okV, nS := true, 0
+		for _, cs := range u.callsNamed(f, "pkg/value.NewString") {
+			nS++
+			v := cs.Common().Args[0]
+			for {
+				if cv, isCv := v.(*ssa.Convert); isCv {
+					v = cv.X
+					continue
+				}
+				break
+			}
+			ex, isEx := v.(*ssa.Extract)
+			if !isEx || ex.Tuple != marshals[0].Value() || ex.Index != 0 {
+				okV = false
+			}
+		}
+		R.check(okV && nS >= 1, "C19.verbatim", "pkg/common."+name, u.pos(f.Pos()), "the text value is string(bytes returned by json.Marshal)", "the output of json.Marshal is rewritten before it is returned: escaping-blind text replacement can produce invalid JSON")
+	}
+
+	// ---- C19.fresh: parsed values are built for this call only - nothing of a parsed document is taken from a
+	// package-level table (numbers, lists and dictionaries are mutable in place: a shared element couples documents)
+	for _, name := range []string{"buildElementFromPlainValue", "JSONStringToElement"} {
+		f := u.ssaFunc("pkg/common", name)
+		if f == nil {
+			R.lost("C19.fresh", "pkg/common."+name)
+			continue
+		}
+		bad := ""
+		for _, in := range instrsOf(f) {
+			for _, op := range in.Operands(nil) {
+				if g, ok := (*op).(*ssa.Global); ok && g.Pkg != nil && strings.HasPrefix(g.Pkg.Pkg.Path(), modPath) && sharedMutableType(g.Type().(*types.Pointer).Elem()) {
+					bad = g.Name() + " at " + u.pos(in.Pos())
+				}
+			}
+		}
+		R.check(bad == "", "C19.fresh", "pkg/common."+name, u.pos(f.Pos()), "every element of a parsed document is allocated by this call", "a parsed document contains an element taken from the package-level variable "+bad+": equal values in one or several documents are the same mutable object")
+	}
+
 	// ---- C19.whole
 	if f := u.ssaFunc("pkg/common", "JSONStringToElement"); f != nil {
 		dec := 0
